@@ -1970,7 +1970,10 @@ fn directed_layouts() -> Vec<Layout> {
     }
     for c in [Clock::ProdLogical, Clock::ProdWall { pivot: 0 }, Clock::ProdWall { pivot: 15 }, Clock::ProdWall { pivot: 16 }, Clock::ProdWall { pivot: 100 }] {
         v.push(base(vec![seg(vec![u("k", 1, 7, val("old"))]), seg(vec![u("k", 2, 15, UK::Tomb)]), other()], c.clone()));
-        v.push(base(vec![big(vec![u("k", 1, 7, val("old"))]), seg(vec![u("k", 2, 15, UK::Tomb)]), other()], c));
+        v.push(base(vec![big(vec![u("k", 1, 7, val("old"))]), seg(vec![u("k", 2, 15, UK::Tomb)]), other()], c.clone()));
+        // the older value in a checkpoint / in a segment beyond the per-pass limit, with the production clock
+        v.push(Layout { ckpt: 1, ..base(vec![seg(vec![u("k", 1, 7, val("old"))]), seg(vec![u("k", 2, 15, UK::Tomb)]), other()], c.clone()) });
+        v.push(Layout { max_per: 2, ..base(vec![seg(vec![u("k", 2, 15, UK::Tomb)]), other(), seg(vec![u("k", 1, 7, val("old"))])], c) });
     }
     // TTLs with a sub-second part, stamps on the millisecond scale of the manual clock: the age of the tombstone is
     // just below / at / just above the configured TTL and just below / at / just above its whole-second truncation
